@@ -28,8 +28,10 @@ Inductive case :=
 (* the COMPLETE BTC executor (Executor.Execute: transaction assembly, one signature hash and one real
    FROST signing process per input, the real tss.Coordinator, watchExecution, sendTx) on the three
    fixture relayers, threshold 1, for a transfer that needs n of the bridge's UTXOs; per relayer:
-   transactions that reached its node and, per input, whether the witness verifies in all of them *)
-| BtcExec (n : nat) (relayers : list (nat * list bool)).
+   transactions that reached its node and, per input, whether the witness verifies in all of them;
+   must_sign: the relayers' FROST shares were refreshed (same committee and threshold, the real
+   resharing processes) before the execution - the new committee can sign: the transfer is broadcast *)
+| BtcExec (must_sign : bool) (n : nat) (relayers : list (nat * list bool)).
 
 Definition pk (s : string) : Z := party_key (bytes_of_string s).
 Definition pcode (hex : string) : Z := peer_code (unhex hex).
@@ -115,7 +117,7 @@ Definition agree (c : case) : bool :=
       | WWaiting => (sent =? 0)%nat
       | WPanic => false
       end
-  | BtcExec n relayers =>
+  | BtcExec _ n relayers =>
       (* benign transport: the threshold+1 = 2 selected relayers sign and send one fully signed
          transaction each, the third one sends nothing *)
       forallb (fun r => (fst r =? 0)%nat
@@ -139,7 +141,7 @@ Definition judge (c : case) : bool :=
       validate_ok old_t (map pcode sub) (map pcode key_peers) (map pcode store) (N.eqb impl 0)
   | Scenario ecdsa obs => scn_ok secp256k1_n ecdsa None obs
   | BtcWatch n rs sent valids => btc_sent_ok n sent valids
-  | BtcExec n relayers => forallb (fun r => btc_sent_ok n (fst r) (snd r)) relayers
+  | BtcExec must n relayers => btc_exec_ok must n relayers
   end.
 
 Definition tag (c : case) : N :=
@@ -157,7 +159,7 @@ Definition tag (c : case) : N :=
       + (if existsb (fun o => match o with OSign _ _ _ _ _ => true | _ => false end) obs then 1 else 0)
       + (if (1 <? List.length (filter (fun o => match o with OShares _ _ _ _ _ => true | _ => false end) obs))%nat then 2 else 0)
   | BtcWatch n rs _ _ => match btc_watch_tx n rs with WSent _ => 31 | WWaiting => 30 | WPanic => 32 end
-  | BtcExec _ _ => 33
+  | BtcExec must _ _ => if must then 34 else 33
   end%N.
 
 Definition check_all := check_cases agree judge tag.
